@@ -65,6 +65,24 @@ func nullProg(c *NullCase, present bool) (*ProgCase, bool) {
 			}
 		case -4: // optional as a list element type where the element is required
 			pc.E = m.Call("max", bind("xs", m.List(m.Maybe(m.Num)), false))
+		case -6:
+			// get(optional container, default): the default's elements / values are themselves
+			// optional (or of another type) - the result is then no list of numbers
+			oa := bind("oa", m.Num, true)
+			switch c.Pos {
+			case 0:
+				pc.E = m.Infix("+", m.Index(m.Call("get", bind("oxs", m.List(m.Num), true), m.ListE(oa)), m.Lit("num", "0")), m.Lit("num", "1"))
+			case 1:
+				pc.E = m.Call("max", m.Call("get", bind("oxs", m.List(m.Num), true), m.ListE(oa)))
+			case 2:
+				pc.E = m.Infix("+", m.Index(m.Call("get", bind("om", m.Map(m.Str, m.Num), true), m.MapE(m.Lit("str", `"a"`), oa)), m.Lit("str", `"a"`)), m.Lit("num", "1"))
+			case 3:
+				pc.E = m.Call("max", m.Call("get", bind("oxs", m.List(m.Num), true), m.ListE(m.Lit("str", `"s"`))))
+			case 4:
+				pc.E = m.Infix("+", m.Call("get", m.Call("get", bind("oxs", m.List(m.Num), true), m.ListE(oa)), m.Lit("num", "0"), m.Lit("num", "5")), m.Lit("num", "1"))
+			default:
+				return nil, false
+			}
 		case -5:
 			// an optional where the payload is required, at the SECOND place where one composite
 			// sub-term (the same variable, hence the same type object) occurs in the expected type
@@ -209,7 +227,9 @@ func eachNullCase(yield func(*NullCase) bool) {
 		{Sig: -5, Name: "optional-at-second-occurrence", Pos: 0, Inst: 0}, {Sig: -5, Name: "optional-at-second-occurrence", Pos: 0, Inst: 1}, {Sig: -5, Name: "optional-at-second-occurrence", Pos: 0, Inst: 2},
 		{Sig: -5, Name: "optional-at-second-occurrence", Pos: 1, Inst: 0}, {Sig: -5, Name: "optional-at-second-occurrence", Pos: 1, Inst: 2},
 		{Sig: -5, Name: "optional-at-second-occurrence", Pos: 2, Inst: 0}, {Sig: -5, Name: "optional-at-second-occurrence", Pos: 2, Inst: 1},
-		{Sig: -5, Name: "optional-at-second-occurrence", Pos: 3, Inst: 0}, {Sig: -5, Name: "optional-at-second-occurrence", Pos: 3, Inst: 2}} {
+		{Sig: -5, Name: "optional-at-second-occurrence", Pos: 3, Inst: 0}, {Sig: -5, Name: "optional-at-second-occurrence", Pos: 3, Inst: 2},
+		{Sig: -6, Name: "default-with-optional-elements", Pos: 0}, {Sig: -6, Name: "default-with-optional-elements", Pos: 1}, {Sig: -6, Name: "default-with-optional-elements", Pos: 2},
+		{Sig: -6, Name: "default-with-optional-elements", Pos: 3}, {Sig: -6, Name: "default-with-optional-elements", Pos: 4}} {
 		if !yield(c) {
 			return
 		}
@@ -445,7 +465,7 @@ func checkNullProg(c *NullProgCase) *Outcome {
 var c16prog = Register(&Prop[NullProgCase]{ID: "C16", Name: "programs-over-optionals", Gen: genNullProg, Check: checkNullProg})
 
 func TestC16(t *testing.T) {
-	R.Rule = "(a) enumerated: every built-in x every argument position given an optional of the required type (three instantiations of type variables; the parameter's variable optional in one or in all positions), member / subscript access on an optional, optional as index / key, list of optionals where a list of numbers is required, an optional at the second place where one variable's composite type occurs in the expected type of a list / map / conditional / default - reference checker decides accept / reject, Compile must agree on three back ends, accepted ones are evaluated for present and absent payloads; (b) random well-typed programs over Go host data (structs with tagged nil / non-nil pointers, nil slices and nil maps) that consume optionals through get(optional, default) and move them through polymorphic positions, evaluated on four back ends against the reference; one case in three supplies required bindings as untagged non-nil pointers and then gives the same Callable a value of the same Go type with one of those pointers nil, which must be refused and not evaluated; (c) Go containers (slices, arrays, maps) of structs whose pointer / slice / map fields are nil or not per element: either rejected as inconsistent or converted to a value in which every component has the type its container declares (an absent part only at an optional-typed position); non-trivial = the program mentions an optional-typed name"
+	R.Rule = "(a) enumerated: every built-in x every argument position given an optional of the required type (three instantiations of type variables; the parameter's variable optional in one or in all positions), member / subscript access on an optional, optional as index / key, list of optionals where a list of numbers is required, a default of get(optional container, default) whose elements are optional, an optional at the second place where one variable's composite type occurs in the expected type of a list / map / conditional / default - reference checker decides accept / reject, Compile must agree on three back ends, accepted ones are evaluated for present and absent payloads; (b) random well-typed programs over Go host data (structs with tagged nil / non-nil pointers, nil slices and nil maps) that consume optionals through get(optional, default) and move them through polymorphic positions, evaluated on four back ends against the reference; one case in three supplies required bindings as untagged non-nil pointers and then gives the same Callable a value of the same Go type with one of those pointers nil, which must be refused and not evaluated; (c) Go containers (slices, arrays, maps) of structs whose pointer / slice / map fields are nil or not per element: either rejected as inconsistent or converted to a value in which every component has the type its container declares (an absent part only at an optional-typed position); non-trivial = the program mentions an optional-typed name"
 	R.Assume = []string{"ref.Check / ref.Eval"}
 	reportKnown(t, "C16")
 	runRegress(t, "C16")
